@@ -63,7 +63,7 @@ var clauseKinds = map[string]bool{
 	"import": true, "maypanic": true, "opaque": true, "holds": true, "locked": true,
 	"reads": true, "fresh": true, "atcall": true, "unreachable": true, "emits": true,
 	"returns": true, "use": true, "axiom": true, "induction": true, "params": true,
-	"terminates": true, "field": true, "sig": true, "group": true, "noalloc": true, "deadcode": true, "replay": true, "witness": true, "lockkey": true, "noreturn": true, "effect": true, "noframe": true,
+	"terminates": true, "field": true, "sig": true, "group": true, "noalloc": true, "deadcode": true, "replay": true, "witness": true, "lockset": true, "rely": true, "relocks": true, "ghostvar": true, "lockkey": true, "noreturn": true, "effect": true, "noframe": true,
 }
 
 var blockKinds = map[string]bool{"func": true, "spec": true, "monitor": true, "extern": true, "lemma": true, "type": true, "actor": true}
@@ -176,7 +176,7 @@ func ParseContractText(text, path, pkg string, extern bool) ([]*Block, error) {
 				cur.Props = append(cur.Props, strings.Fields(rest)...)
 				last = nil
 				continue
-			case "nopanic", "pure", "inline", "trusted", "noinline", "opaque", "maypanic", "terminates", "noframe", "group", "lockkey", "noreturn", "ghost", "noalloc", "deadcode":
+			case "nopanic", "pure", "inline", "trusted", "noinline", "opaque", "maypanic", "terminates", "noframe", "group", "lockkey", "noreturn", "ghost", "noalloc", "deadcode", "relocks":
 				cur.Flags[word] = rest
 				last = nil
 				continue
@@ -319,7 +319,13 @@ func desugar(s string) (string, error) {
 				return "", fmt.Errorf("unbalanced %q in %q", string(c), s)
 			}
 			inner := s[i+1 : j]
-			if c == '(' {
+			if ti := strings.TrimSpace(inner); c == '(' && (strings.HasPrefix(ti, "forall ") || strings.HasPrefix(ti, "exists ")) {
+				d, err := desugar(inner)
+				if err != nil {
+					return "", err
+				}
+				inner = d
+			} else if c == '(' {
 				// could be an argument list: desugar each top-level comma part
 				parts := splitTop(inner, ',')
 				for k, p := range parts {
